@@ -4,9 +4,9 @@
 
     The scanners work on the text that follows the opening quote.  [quote] is
     only ever a single or a double quote character (lexer.py:347,653,656).  Error positions are not
-    modelled.  The only Python exception is the IndexError of
-    [self.source[self.start]] when an unclosed literal is reported with
-    [start == len(source)] (DESIGN §10 item 3, owned by C02/C17). *)
+    modelled.  (The IndexError of an unclosed literal at the end of the input,
+    DESIGN §10 item 3, is repaired in the tree by commit 607bd91 of C02/C17:
+    an unclosed literal is always a LiquidSyntaxError.) *)
 From LQ Require Import Base.Str Kernels.Unescape.
 Local Open Scope N_scope.
 
@@ -39,7 +39,7 @@ Fixpoint accept_string_loop (q : N) (src : str) : res (str * str) :=
 
 Definition accept_string (q : N) (src : str) : res (str * str) :=
   match src with
-  | [] => PyExc IndexError               (* source[start] with start == len(source) *)
+  | [] => syntax_error                   (* unclosed string literal *)
   | c :: _ => if c =? q then Ok ([], src) else accept_string_loop q src
   end.
 
@@ -68,23 +68,22 @@ Section TemplateString.
   Definition emit (seg : str) : list part :=
     match seg with [] => [] | _ => [PStr seg] end.
 
-  (** [fresh] is [self.start == self.pos].  Returns the text from here to the
-      next [${] or closing quote, the parts after it, and the source after the
-      closing quote. *)
-  Fixpoint ts_loop (fuel : nat) (q : N) (src : str) (fresh : bool)
+  (** Returns the text from here to the next [${] or closing quote, the parts
+      after it, and the source after the closing quote. *)
+  Fixpoint ts_loop (fuel : nat) (q : N) (src : str)
     : res (str * list part * str) :=
     match fuel with
     | O => OutOfFuel
     | S fuel' =>
         match src with
-        | [] => if fresh then PyExc IndexError else syntax_error    (* unclosed *)
+        | [] => syntax_error                                    (* unclosed *)
         | c :: r =>
             if c =? BSL then
               match r with
               | [] => syntax_error
               | e :: r' =>
                   if is_escape e || (e =? q) then
-                    do x <- ts_loop fuel' q r' false ;;
+                    do x <- ts_loop fuel' q r' ;;
                     let '(seg, ps, rest) := x in Ok (c :: e :: seg, ps, rest)
                   else syntax_error
               end
@@ -95,7 +94,7 @@ Section TemplateString.
               match r2 with
               | b :: r3 =>
                   if b =? RBRACE then
-                    do y <- ts_loop fuel' q r3 true ;;
+                    do y <- ts_loop fuel' q r3 ;;
                     let '(seg, ps, rest) := y in
                     Ok ([], PExpr e :: emit seg ++ ps, rest)
                   else syntax_error       (* unexpected end of template string expression *)
@@ -103,7 +102,7 @@ Section TemplateString.
               end
             else if c =? q then Ok ([], [], r)
             else
-              do x <- ts_loop fuel' q r false ;;
+              do x <- ts_loop fuel' q r ;;
               let '(seg, ps, rest) := x in Ok (c :: seg, ps, rest)
         end
     end.
@@ -113,13 +112,13 @@ Section TemplateString.
     | c :: r =>
         if c =? q then Ok (TPlain [], r)                   (* an empty string *)
         else
-          do x <- ts_loop (S (List.length src)) q src true ;;
+          do x <- ts_loop (S (List.length src)) q src ;;
           let '(seg, ps, rest) := x in
           match emit seg ++ ps with
           | [PStr raw] => Ok (TPlain raw, rest)           (* just a plain string *)
           | parts => Ok (TTemplate parts, rest)
           end
-    | [] => PyExc IndexError
+    | [] => syntax_error                                 (* unclosed *)
     end.
 
   (** expressions.py:352-379,398-401: the value of a template string, given
